@@ -306,6 +306,13 @@ def handleLine (t : TS) (line : String) : TS :=
     | none => t.problem "MISMATCH[other]" "unparsable write"
   | ["werr", rc] => if t.faultMode then { t with nWerr := t.nWerr + 1 } else t.problem "MISMATCH[other]" s!"write failed rc={rc}"
   | ["faultmode"] => { t with faultMode := true }
+  | ["seq0", n] =>
+    match n.toNat? with
+    | some s0 =>
+      if s0 == t.st.lastSeq + 1 then t
+      else if t.faultMode && s0 > t.st.lastSeq + 1 then { t with st := { t.st with lastSeq := s0 - 1 } }   -- sequence numbers consumed by a failed write
+      else t.problem "MISMATCH[other]" s!"write starts at sequence {s0}, model expects {t.st.lastSeq + 1}"
+    | none => t.problem "MISMATCH[other]" "unparsable seq0"
   | ["wf", ops] => match parseList parseWOp ops "," with
     | some os => { t with lastWF := os }
     | none => t.problem "MISMATCH[other]" "unparsable failed write"
